@@ -1,4 +1,5 @@
-//! Harness-side HELPERS for src/codec/framed_write.rs (no contracts on FramedWrite itself yet).
+//! Harness-side helpers for src/codec/framed_write.rs, and the contract of `Encoder::has_capacity` (C04: a header block
+//! is contiguous on the wire — no other frame is accepted while a CONTINUATION is parked).
 //!
 //! The hook module is private to `codec::framed_write`, so everything other harness files need is
 //! exposed as inherent `vk_*` methods (inherent `pub(crate)` items are reachable crate-wide).
@@ -47,3 +48,51 @@ impl<T, B> FramedWrite<T, B> {
     }
 }
 // ---- connlevel helpers end
+
+
+#[cfg(kani)]
+mod proofs {
+    use super::*;
+    use bytes::Bytes;
+
+    // C04 (RFC 9113 §4.3: the frames of a field block are contiguous) / C12: `buffer()` may only be called when
+    // `has_capacity()` (it asserts it; Connection/Codec callers go through poll_ready, which returns Pending otherwise).
+    // Contract, taken from the property: has_capacity() is true ONLY IF nothing is parked in `next` — neither the rest
+    // of a header block (Next::Continuation) nor a DATA payload (Next::Data) — and exactly if additionally the free
+    // buffer space reaches the threshold.  `next` is enumerated over all three shapes, the threshold is ANY usize, the
+    // fill level any 0..=64; the buffer capacity is the concrete 64 (capacity and len only enter through one
+    // subtraction and one comparison).
+    // @harness id=fw_has_capacity_contract props=C04,C12 kind=complete tier=quick fn=Encoder::has_capacity
+    #[kani::proof]
+    fn fw_has_capacity_contract() {
+        let fill: usize = kani::any();
+        kani::assume(fill <= 64);
+        let min: usize = kani::any();
+        let mut shape = 0;
+        while shape < 3 {
+            let mut b = BytesMut::with_capacity(64);
+            unsafe { b.set_len(fill) };
+            let free = b.capacity() - b.len();
+            let next: Option<Next<Bytes>> = match shape {
+                0 => None,
+                1 => Some(Next::Data(frame::Data::new(frame::StreamId::from(1), Bytes::new()))),
+                _ => Some(Next::Continuation(frame::Continuation::vk_new(frame::StreamId::from(1), 3))),
+            };
+            let enc: Encoder<Bytes> = Encoder {
+                hpack: hpack::Encoder::default(),
+                buf: Cursor::new(b),
+                next,
+                last_data_frame: None,
+                max_frame_size: frame::DEFAULT_MAX_FRAME_SIZE,
+                chain_threshold: CHAIN_THRESHOLD,
+                min_buffer_capacity: min,
+            };
+            let r = enc.has_capacity();
+            assert!(!r || enc.next.is_none(), "framed_write.has_capacity.never_while_a_continuation_or_data_payload_is_parked");
+            assert!(r == (shape == 0 && free >= min), "framed_write.has_capacity.exactly_when_nothing_parked_and_room_for_a_frame");
+            std::mem::forget(enc);
+            shape += 1;
+        }
+        kani::cover!(fill == 64 && min == 0, "cover.full_buffer_zero_threshold");
+    }
+}
